@@ -7,7 +7,7 @@ HOOK_COMMITS = subprocess.run(["git", "-C", "/repo", "log", "--format=%H %s", "-
 
 CHECKS = {
  "C01": dict(cat="exploration", design="§5 C01",
-   text="Round-trip + position oracle on ~1.9M generated texts per quick run: exhaustive token-class sequences up to length 3 over a 93-class alphabet that includes every error maker, BOM/NUL/NBSP/VT/NEL/ZWSP/CR and nested-comment lexemes, grammar-generated programs under three trivia policies, token mutations, every prefix of the seed files, windows of the 43 vendored files (39 LLVM-14 headers, four hand-written backend-style files), character noise, preprocessor regions with junk, 15 nesting shapes up to depth 250 , 10^4-fold token repetition, every lexeme that opens no bracket repeated 150000 times on a 512 KiB stack (stack use must not grow with the length of a text without nesting), and every sequence of up to three range pieces or separators in the five places where a range list is read. The property is universally quantified over all UTF-8 strings, so exploration with an exact oracle is the right level; no absence proof.",
+   text="Round-trip + position oracle on ~1.9M generated texts per quick run: exhaustive token-class sequences up to length 3 over a 93-class alphabet that includes every error maker, BOM/NUL/NBSP/VT/NEL/ZWSP/CR and nested-comment lexemes, grammar-generated programs under three trivia policies, token mutations, every prefix of the seed files, windows of the 44 vendored files (39 LLVM-14 headers, five hand-written backend-style files), character noise, preprocessor regions with junk, 15 nesting shapes up to depth 250 , 10^4-fold token repetition, every lexeme that opens no bracket repeated 150000 times on a 512 KiB stack (stack use must not grow with the length of a text without nesting), and every sequence of up to three range pieces or separators in the five places where a range list is read. The property is universally quantified over all UTF-8 strings, so exploration with an exact oracle is the right level; no absence proof.",
    note="trusts rowan's text()/text_range(); explores short exhaustive + structured random inputs, not all strings",
    technique="property-based testing: round-trip oracle over exhaustive token-class sequences and grammar/mutation generators"),
  "C02": dict(cat="exploration", design="§5 C02",
@@ -19,7 +19,7 @@ CHECKS = {
    note="RefPos is the trusted reference; offsets strictly inside a CRLF pair are exempt from the round-trip clause, columns inside a surrogate pair and lines past the end are unspecified and skipped",
    technique="exhaustive small-scope enumeration + random texts against a reference model (differential)"),
  "C14": dict(cat="exploration", design="§5 C14",
-   text="Differential against RefLexer (written from the TableGen Programmer's Reference) on 500k generated sequences per quick run of spec-level token instances sampled over each class's regular language with boundary cases, joined by every separator kind (including nested block comments with random bodies over the delimiter characters, and no separator where the reference split is unchanged; comments with runs of stars before the closer; trivia behind the last token, so that a comment or string may end with the input), the same differential on raw generated programs and the 47 real files, plus an exhaustive vocabulary table (every keyword, operator and punctuation mark lexes alone to a distinct non-Id kind).",
+   text="Differential against RefLexer (written from the TableGen Programmer's Reference) on 500k generated sequences per quick run of spec-level token instances sampled over each class's regular language with boundary cases, joined by every separator kind (including nested block comments with random bodies over the delimiter characters, and no separator where the reference split is unchanged; comments with runs of stars before the closer; trivia behind the last token, so that a comment or string may end with the input), the same differential on raw generated programs and the 48 real files, plus an exhaustive vocabulary table (every keyword, operator and punctuation mark lexes alone to a distinct non-Id kind).",
    note="RefLexer is the trusted reference for boundaries; kinds are checked by class membership, not by name",
    technique="property-based testing: generated token sequences, differential against a reference lexer"),
  "C15": dict(cat="exploration", design="§5 C15",
@@ -55,7 +55,7 @@ CHECKS = {
    note="the generator's scoping rules were audited against llvm-tblgen-14; uses of a field after a let override may resolve to the declaration or an override identifier; reference sets of overridden fields are not asserted",
    technique="property-based testing with a by-construction oracle (scope-tracking program generator)"),
  "C13": dict(cat="fault_enumeration", design="§5 C13",
-   text="Soundness: 20000 well-formed SEM programs per quick run (incl. list pastes, !if over records, defm with class parents, records named after their defm and used as values, self-instantiating multiclasses, !if and lists over records of unrelated classes) must produce no diagnostic in any file, nor may the 18 vendored files that llvm-tblgen-14 accepts as roots (14 LLVM-14 headers such as Target.td and Intrinsics.td, four hand-written backend-style files; LF and CRLF). Completeness: fourteen fault classes (undefined class / multiclass / identifier / field read / field named by a let, missing include, dropped and surplus template argument, required positional arguments removed while named ones stay, type-incompatible value, operator arity +1/-1, deleted token in root / in an included file) are seeded one at a time at a generated eligible site (undefined identifiers: a name declared nowhere, or the name that stands there plus one character; the names of records that defms compose are sites as well) (typed sites: initialisers, template arguments, every operand of the integer operators and the elements of list literals); a diagnostic must intersect the site in the seeded file, and faults in the root must leave the included files clean.",
+   text="Soundness: 20000 well-formed SEM programs per quick run (incl. list pastes, !if over records, defm with class parents, records named after their defm and used as values, self-instantiating multiclasses, !if and lists over records of unrelated classes) must produce no diagnostic in any file, nor may the 18 vendored files that llvm-tblgen-14 accepts as roots (14 LLVM-14 headers such as Target.td and Intrinsics.td, five hand-written backend-style files; LF and CRLF). Completeness: fourteen fault classes (undefined class / multiclass / identifier / field read / field named by a let, missing include, dropped and surplus template argument, required positional arguments removed while named ones stay, type-incompatible value, operator arity +1/-1, deleted token in root / in an included file) are seeded one at a time at a generated eligible site (undefined identifiers: a name declared nowhere, or the name that stands there plus one character; the names of records that defms compose are sites as well) (typed sites: initialisers, template arguments, every operand of the integer operators and the elements of list literals); a diagnostic must intersect the site in the seeded file, and faults in the root must leave the included files clean.",
    note="well-formedness audited against llvm-tblgen-14 on its feature subset; token deletions restricted to ';', '=' (not before '{') and ':' whose absence is locally detectable; type faults use literals for which no TableGen conversion exists",
    technique="property-based testing + single-fault seeding over generated programs"),
  "C18": dict(cat="exploration", design="§5 C18",
@@ -83,7 +83,7 @@ CHECKS = {
    note="a close triggers no analysis; its effect (disk text is the truth again) is checked at the next analysed step",
    technique="exhaustive small-scope enumeration of sessions against a reference model"),
  "C04": dict(cat="exploration", design="§5 C04",
-   text="Positive: 10000 grammar-generated sentences per quick run (three trivia policies; object names with operators, lists, class values and suffixes) must parse with zero errors and mirror their derivation tree, including what each of the 103 typed accessors of ast.rs returns; the 43 vendored files (39 LLVM-14 headers, four hand-written backend-style files accepted by llvm-tblgen-14) and the seed files must parse cleanly. Negative: 15000 one/two-token edits classified by an independent Earley recogniser over token classes against two grammars (G_min: documented grammar; G_max: plus everything plausibly legal): derivable => zero errors, not derivable even from G_max => at least one error.",
+   text="Positive: 10000 grammar-generated sentences per quick run (three trivia policies; object names with operators, lists, class values and suffixes) must parse with zero errors and mirror their derivation tree, including what each of the 103 typed accessors of ast.rs returns; the 44 vendored files (39 LLVM-14 headers, five hand-written backend-style files accepted by llvm-tblgen-14) and the seed files must parse cleanly. Negative: 15000 one/two-token edits classified by an independent Earley recogniser over token classes against two grammars (G_min: documented grammar; G_max: plus everything plausibly legal): derivable => zero errors, not derivable even from G_max => at least one error.",
    note="the Earley grammars are my transcription of syntax.md and the rule comments (self-checked: every generated sentence is in G_max); 'in between' inputs are not asserted",
    technique="grammar-based generation + mutation with an independent Earley recogniser as oracle"),
 }
